@@ -179,6 +179,7 @@ def gen(rng, tier):
                  "const size_t NT = progs.size();",
                  "std::vector<std::vector<long long>> logs(NT); std::vector<int> bad(NT, 0);",
                  "using ARR = Kokkos::Experimental::mdarray<int, typename M::extents_type, typename M::layout_type>; const ARR carr(m); const ARR carr_ref(m);",
+                 "std::vector<int> fillc((size_t)span); for (long long c = 0; c < span; ++c) fillc[(size_t)c] = (int)(5000 + c); const ARR carr_fill(m, fillc);",
                  "const auto ref_obs = drv::observe(shared); const auto ref_arr = drv::observe_arr(carr_ref);   // carr itself is first used inside the threads",
                  "drv::run_threads(NT, seed, [&](int tid, drv::Jit& jt) {",
                  "  std::unique_ptr<MD> mine;",
@@ -188,7 +189,7 @@ def gen(rng, tier):
                  "    const MD& src = mine ? *mine : shared;",
                  "    switch (a.kind) {",
                  "    case 0: with_view(src, a.der, [&](const auto& w) { drv::elem(w, a) = (int)a.x; }); break;",
-                 "    case 1: with_view(src, a.der, [&](const auto& w) { logs[(size_t)tid].push_back((long long)(int)drv::elem(w, a)); }); break;",
+                 "    case 1: with_view(src, a.der, [&](const auto& w) { logs[(size_t)tid].push_back((long long)(int)drv::elem(w, a)); });\n      if (a.der == 0 && !drv::arr_read_ok(carr_fill, m, a, std::make_index_sequence<M::extents_type::rank()>{})) ++bad[(size_t)tid]; break;",
                  "    case 2: if (drv::observe(src) != ref_obs) ++bad[(size_t)tid]; if (drv::observe_arr(carr) != ref_arr) ++bad[(size_t)tid]; break;",
                  "    case 3: mine.reset(new MD(shared)); break;",
                  "    default: with_view(src, a.der, [&](const auto& w) { if (w.size() == (size_t)-1) ++bad[(size_t)tid]; }); break;",
@@ -263,7 +264,7 @@ def judge(r, cfg):
                 diff = [(c - 8, x, y) for c, (x, y) in enumerate(zip(a, b)) if x != y]
                 out.append((k, "after all threads joined the buffer differs from the schedule-independent result at cells (cell, found, expected) %s" % diff[:6], True))
             elif k == "obs":
-                out.append((k, "%s observer calls made inside threads returned something else than before the threads started" % a, True))
+                out.append((k, "%s observer calls made inside threads returned something else than before the threads started, or element reads through the shared const mdarray were not container()[mapping()(i...)]" % a, True))
             else:
                 out.append((k, "thread %s read %s, alone it reads %s" % (k[3:], a, b), True))
     return out
@@ -292,6 +293,8 @@ def collect(rep, prop, tier, seed, exe, replay=None):
     if not au["modes"]:
         rep.violation("the purity audit cannot parse the headers in any language mode", {"obligation": "audit:parse", "log": au["error"], "signature": "audit:parse"}, True)
     records, build_fail = run_programs("T", "drv_thr.hpp", progs, cases, configs, work, exe, nshards=16, prelude=prelude, name="thr")
+    import incoq
+    incoq_n = incoq.sample_check(rep, prop, "T", records, tier, seed, work, replay)
     for (sh_, cfg, blog) in {c: (s_, c, l) for (s_, c, l) in reversed(build_fail)}.values():
         rep.violation("thread driver shard %s no longer builds in configuration %s" % (sh_, cfg),
                       {"obligation": "corr:thr/build/%s/%s" % (sh_, cfg), "log": blog[-3000:], "signature": "build:thr:%s" % cfg}, True)
@@ -322,12 +325,12 @@ def collect(rep, prop, tier, seed, exe, replay=None):
         if len(seen) >= 6:
             break
     return {
-        "evaluations": evaluations, "distinct_nontrivial": len(nontriv),
+        "evaluations": evaluations, "distinct_nontrivial": len(nontriv), "evaluated_inside_coq_too": incoq_n,
         "rule": "purity audit: clang AST (JSON) of <mdspan/mdspan.hpp> + <mdspan/mdarray.hpp> in C++14/17/20/2b, every declaration in namespace Kokkos: no non-const variable of static storage "
                 "duration, no thread_local, no mutable member, no const_cast; plus a token scan of all headers (%d AST nodes, modes %s).  Thread programs: 2-8 real threads share one const "
                 "mdspan<int> (layouts left/right/stride/left_padded/right_padded, default and proxy accessor) over a buffer with canaries; each thread runs 5-14 (thorough: 8-39) actions: writes "
                 "and reads of elements it owns (reads also of read-only elements) through the shared view, a private copy, or sub-views (1-2 submdspan levels, all slice kinds) created inside the thread, "
-                "in the pack / std::array / std::span form, plus observer calls (on the view and on a shared const mdarray over the same mapping: size, extents, strides, flags, data, to_mdspan, container), copies and sub-view creations; seeded yields and spins.  Compared with the model: the final buffer and every "
+                "in the pack / std::array / std::span form, plus observer calls (on the view and on a shared const mdarray over the same mapping: size, extents, strides, flags, data, to_mdspan, container; every read of the shared view itself is repeated through a shared const mdarray whose container holds 5000 + offset: a(i...) must be that value, at container().data() + mapping()(i...), and the same cell as to_mdspan()(i...) - theorem C19_const_mdarray_cell), copies and sub-view creations; seeded yields and spins.  Compared with the model: the final buffer and every "
                 "thread's read log equal the sequential composition (which the theorems show equals every interleaving); observers inside threads return what they returned before; "
                 "ThreadSanitizer builds (g++, clang++) must report nothing.  non-trivial = at least 2 threads and 2 writes" % (au["nodes"], ",".join(au["modes"])),
         "programs": len(progs) * len(configs), "configurations": configs, "disagreements_checked": len(flagged),
